@@ -3,7 +3,7 @@
 //! code on constants, against relations recomputed independently in this crate.  Only cheap relations are covered (see DESIGN.md).
 use crate::refm;
 use ark_ec::{short_weierstrass::SWCurveConfig, twisted_edwards::TECurveConfig, AffineRepr, CurveConfig};
-use ark_ff::{BigInt, BigInteger, FftField, Field, MontConfig, One, PrimeField, Zero};
+use ark_ff::{AdditiveGroup, BigInt, BigInteger, FftField, Field, MontConfig, One, PrimeField, Zero};
 
 /// 2^(64*N*k) mod m by shift-and-subtract on N+1 limbs (independent of BigInt::montgomery_r)
 fn pow2_mod<const N: usize>(m: &[u64; N], times: usize) -> [u64; N] {
@@ -64,6 +64,50 @@ fn two_adic<F: PrimeField + FftField>() -> bool {
         val += 1;
     }
     x == -F::one() && x.square().is_one() && val == s && F::MODULUS_BIT_SIZE == F::MODULUS.num_bits()
+}
+/// g has exact multiplicative order n: g^n = 1 and g^(n/q) != 1 for every prime q | n (plain repeated multiplication, n small)
+fn exact_order<F: Field>(g: F, n: u64, primes: &[u64]) -> bool {
+    let pw = |e: u64| {
+        let mut r = F::one();
+        let mut i = 0;
+        while i < e {
+            r *= g;
+            i += 1;
+        }
+        r
+    };
+    let mut ok = pw(n).is_one();
+    let mut j = 0;
+    while j < primes.len() {
+        ok &= n % primes[j] == 0 && !pw(n / primes[j]).is_one();
+        j += 1;
+    }
+    ok
+}
+/// declared small subgroup b^k of a tiny prime field: the constants are the declared ones, 2^s * b^k divides p - 1 with s = v2(p - 1),
+/// and the two roots of unity have EXACT orders 2^s and 2^s * b^k
+fn small_subgroup_tiny<F: PrimeField + FftField>(p: u64, b: u32, k: u32) -> bool {
+    let s = F::TWO_ADICITY;
+    let n = (1u64 << s) * (b as u64).pow(k);
+    let mut ok = F::SMALL_SUBGROUP_BASE == Some(b) && F::SMALL_SUBGROUP_BASE_ADICITY == Some(k);
+    ok &= (p - 1) % n == 0 && ((p - 1) >> s) & 1 == 1;
+    ok &= exact_order(F::TWO_ADIC_ROOT_OF_UNITY, 1 << s, &[2]);
+    ok &= match F::LARGE_SUBGROUP_ROOT_OF_UNITY {
+        Some(g) => exact_order(g, n, &[2, b as u64]),
+        None => false,
+    };
+    ok
+}
+/// FFT parameters of an extension field are those of its base field, embedded
+fn ext_fft<E: FftField, B: FftField>(embed: fn(B) -> E) -> bool {
+    let mut ok = E::TWO_ADICITY == B::TWO_ADICITY && E::TWO_ADIC_ROOT_OF_UNITY == embed(B::TWO_ADIC_ROOT_OF_UNITY) && E::GENERATOR == embed(B::GENERATOR);
+    ok &= E::SMALL_SUBGROUP_BASE == B::SMALL_SUBGROUP_BASE && E::SMALL_SUBGROUP_BASE_ADICITY == B::SMALL_SUBGROUP_BASE_ADICITY;
+    ok &= match (E::LARGE_SUBGROUP_ROOT_OF_UNITY, B::LARGE_SUBGROUP_ROOT_OF_UNITY) {
+        (Some(x), Some(y)) => x == embed(y),
+        (None, None) => true,
+        _ => false,
+    };
+    ok
 }
 fn sw_curve<C: SWCurveConfig>() -> bool
 where
@@ -131,6 +175,36 @@ crate::harnesses! { REG;
         crate::cover!(true);
         let ok = two_adic::<bls12_381::Fq>() && two_adic::<mnt4_753::Fq>() && two_adic::<mnt4_753::Fr>() && two_adic::<bn384_small_two_adicity::Fq>()
             && two_adic::<bn384_small_two_adicity::Fr>() && two_adic::<ark_bls12_381::Fq>();
+        assert!(ok);
+    }
+    /// quick required | ground: declared small subgroups (derive attributes small_subgroup_base / _power) of the tiny fields F_73 (3^2) and F_97 (3^1): SMALL_SUBGROUP_BASE / _ADICITY are the declared values, TWO_ADIC_ROOT_OF_UNITY and LARGE_SUBGROUP_ROOT_OF_UNITY have EXACT orders 2^s and 2^s * 3^k
+    #[unwind(100)]
+    fn c16_small_subgroup_tiny() {
+        use crate::fields::*;
+        crate::cover!(true);
+        let ok = small_subgroup_tiny::<DF73>(73, 3, 2) && small_subgroup_tiny::<DF97>(97, 3, 1);
+        assert!(ok);
+    }
+    /// quick required | ground: FftField constants of extension fields are the embedded base-field constants (TWO_ADICITY, both roots of unity, GENERATOR, SMALL_SUBGROUP_BASE and _ADICITY kept apart): Fp2 and Fp3 over F_73 (small subgroup 3^2), test-curves mnt6_753 Fq3 (base field with small subgroup 5^2), bls12_381 Fq2 / Fq6 / Fq12
+    #[unwind(100)]
+    fn c16_ext_fft_consts() {
+        use crate::fields::*;
+        use crate::towers::*;
+        use ark_ff::{Fp2, Fp3};
+        use ark_test_curves::{bls12_381 as b, mnt6_753 as m6};
+        crate::cover!(true);
+        let ok = ext_fft::<S73_2, DF73>(|x| Fp2::new(x, DF73::ZERO))
+            && ext_fft::<S73_3, DF73>(|x| Fp3::new(x, DF73::ZERO, DF73::ZERO))
+            && <S73_3 as FftField>::SMALL_SUBGROUP_BASE == Some(3)
+            && <S73_3 as FftField>::SMALL_SUBGROUP_BASE_ADICITY == Some(2)
+            && <S73_2 as FftField>::SMALL_SUBGROUP_BASE == Some(3)
+            && <S73_2 as FftField>::SMALL_SUBGROUP_BASE_ADICITY == Some(2)
+            && ext_fft::<m6::Fq3, m6::Fq>(|x| m6::Fq3::new(x, m6::Fq::ZERO, m6::Fq::ZERO))
+            && <m6::Fq3 as FftField>::SMALL_SUBGROUP_BASE == Some(5)
+            && <m6::Fq3 as FftField>::SMALL_SUBGROUP_BASE_ADICITY == Some(2)
+            && ext_fft::<b::Fq2, b::Fq>(|x| b::Fq2::new(x, b::Fq::ZERO))
+            && ext_fft::<b::Fq6, b::Fq2>(|x| b::Fq6::new(x, b::Fq2::ZERO, b::Fq2::ZERO))
+            && ext_fft::<b::Fq12, b::Fq6>(|x| b::Fq12::new(x, b::Fq6::ZERO));
         assert!(ok);
     }
     /// quick required | ground: the SWU-isogenous helper curves of test-curves bls12_381 (g1_swu_iso, g2_swu_iso): generator on the curve, COFACTOR * COFACTOR_INV = 1 (mod r), ZETA is a quadratic non-residue candidate with a*b != 0
